@@ -32,28 +32,45 @@ pub struct Item {
     pub name: &'static str,
     /// takes part in the exhaustive schedule search (≤ 8 allocations)
     pub small: bool,
+    /// compilation costs ≥ ~4 ms: in the quick tier gap injection uses ≤ 1 non-zero gap for it
+    /// (a fixed attribute of the value, not a measured time)
+    pub heavy: bool,
     pub f: fn() -> Vec<u8>,
 }
 
 pub fn menu() -> Vec<Item> {
     vec![
-        Item { name: "gdef_small", small: true, f: gdef_small },
-        Item { name: "cmap_shared", small: true, f: cmap_shared },
-        Item { name: "ivs_builder", small: true, f: ivs_builder_small },
-        Item { name: "font_builder", small: true, f: font_builder_small },
-        Item { name: "gvar_small", small: true, f: gvar_small },
-        Item { name: "gpos_single", small: true, f: gpos_single },
-        Item { name: "gpos_single_scripts", small: true, f: gpos_single_scripts },
-        Item { name: "multiple_subst_dense", small: false, f: multiple_subst_dense },
-        Item { name: "gpos_promoted", small: false, f: gpos_promoted },
-        Item { name: "gpos_split_pairpos1", small: false, f: gpos_split_pairpos1 },
-        Item { name: "gpos_classpair_builder", small: false, f: gpos_classpair_builder },
-        Item { name: "gvar_shared_tuples", small: false, f: gvar_shared_tuples },
-        Item { name: "ivs_builder_many_regions", small: false, f: ivs_builder_many },
-        Item { name: "corpus_layout_roundtrip", small: false, f: corpus_layout_roundtrip },
-        Item { name: "corpus_layout_anekbangla", small: false, f: corpus_layout_small },
-        Item { name: "klippa_roboto_abc", small: false, f: klippa_roboto },
-        Item { name: "klippa_variable", small: false, f: klippa_variable },
+        Item { name: "gdef_small", heavy: false, small: true, f: gdef_small },
+        Item { name: "cmap_shared", heavy: false, small: true, f: cmap_shared },
+        Item { name: "ivs_builder", heavy: false, small: true, f: ivs_builder_small },
+        Item { name: "font_builder", heavy: false, small: true, f: font_builder_small },
+        Item { name: "gvar_small", heavy: false, small: true, f: gvar_small },
+        Item { name: "gpos_single", heavy: false, small: true, f: gpos_single },
+        Item { name: "gpos_single_scripts", heavy: false, small: true, f: gpos_single_scripts },
+        Item { name: "multiple_subst_dense", heavy: false, small: false, f: multiple_subst_dense },
+        Item { name: "gpos_promoted", heavy: false, small: false, f: gpos_promoted },
+        Item { name: "gpos_split_pairpos1", heavy: false, small: false, f: gpos_split_pairpos1 },
+        Item { name: "gpos_classpair_builder", heavy: false, small: false, f: gpos_classpair_builder },
+        Item { name: "gvar_shared_tuples", heavy: false, small: false, f: gvar_shared_tuples },
+        Item { name: "ivs_builder_many_regions", heavy: false, small: false, f: ivs_builder_many },
+        Item { name: "corpus_layout_roundtrip", heavy: false, small: false, f: corpus_layout_roundtrip },
+        Item { name: "corpus_layout_anekbangla", heavy: false, small: false, f: corpus_layout_small },
+        // one value per compile-path site that iterates (or could iterate) a hash container, built
+        // with TIES so that an order dependence has visible consequences
+        Item { name: "singlepos_builder_ties", heavy: false, small: false, f: singlepos_builder_ties },
+        Item { name: "pairpos_builder_equal_classes", heavy: false, small: false, f: pairpos_builder_equal_classes },
+        Item { name: "classdef_builder_ties", heavy: false, small: false, f: classdef_builder_ties },
+        Item { name: "mark_builders_equal_classes", heavy: false, small: false, f: mark_builders_equal_classes },
+        Item { name: "cursive_builder", heavy: false, small: false, f: cursive_builder },
+        Item { name: "gsub_builders", heavy: false, small: false, f: gsub_builders },
+        Item { name: "post_v2_repeated_names", heavy: false, small: false, f: post_v2_repeated_names },
+        Item { name: "cmap_format12_duplicates", heavy: false, small: false, f: cmap_format12_duplicates },
+        Item { name: "ivs_builder_ties_both_modes", heavy: false, small: false, f: ivs_builder_ties_both_modes },
+        Item { name: "gpos_split_pairpos2_equal_classes", heavy: true, small: false, f: gpos_split_pairpos2 },
+        Item { name: "gpos_split_mark2base", heavy: true, small: false, f: gpos_split_mark2base },
+        Item { name: "gpos_two_splits_one_lookup", heavy: true, small: false, f: gpos_two_splits_one_lookup },
+        Item { name: "klippa_roboto_abc", heavy: false, small: false, f: klippa_roboto },
+        Item { name: "klippa_variable", heavy: false, small: false, f: klippa_variable },
     ]
 }
 
@@ -369,6 +386,290 @@ fn ivs_builder_many() -> Vec<u8> {
     }
     let (store, _) = b.build();
     dump_table(&store).unwrap()
+}
+
+// ---------------------------------------------------------------------------------------------
+// values aimed at hash-container sites (ties everywhere)
+// ---------------------------------------------------------------------------------------------
+
+use write_fonts::tables::gpos::builders::{
+    AnchorBuilder, CursivePosBuilder, MarkToBaseBuilder, MarkToLigBuilder, MarkToMarkBuilder,
+    SinglePosBuilder,
+};
+use write_fonts::tables::layout::builders::ClassDefBuilder;
+
+fn gpos_of(lookups: Vec<PositionLookup>) -> Vec<u8> {
+    let n = lookups.len() as u16;
+    let (sl, fl) = simple_script_feature_lists(n);
+    let gpos = Gpos::new(sl, fl, LookupList::new(lookups));
+    dump_table(&gpos).unwrap()
+}
+
+/// SinglePosBuilder: three groups of 3 glyphs sharing a record (=> three format-1 subtables of equal
+/// coverage size, found through `group_by_record`) and three value formats with 3 glyphs each and
+/// distinct values (=> three format-2 subtables of the same size, through `group_by_format`): six
+/// subtables tied on coverage length, ordered only by the first-glyph tie-break.
+fn singlepos_builder_ties() -> Vec<u8> {
+    let mut b = SinglePosBuilder::default();
+    for (k, first) in [30u16, 10, 20].into_iter().enumerate() {
+        for i in 0..3 {
+            let rec = ValueRecordBuilder::new().with_x_advance(-10 * (k as i16 + 1)).with_x_placement(5);
+            b.insert(g(first + i), rec);
+        }
+    }
+    for i in 0..3u16 {
+        b.insert(g(70 + i), ValueRecordBuilder::new().with_x_placement(i as i16 + 1));
+        b.insert(g(50 + i), ValueRecordBuilder::new().with_y_placement(i as i16 + 1));
+        b.insert(g(60 + i), ValueRecordBuilder::new().with_y_advance(i as i16 + 1));
+    }
+    let mut vs = VariationStoreBuilder::new(2);
+    let subtables = b.build(&mut vs);
+    gpos_of(vec![PositionLookup::Single(Lookup::new(LookupFlag::empty(), subtables))])
+}
+
+/// PairPosBuilder: glyph pairs in three value-format groups of equal size and class pairs where every
+/// class has exactly two glyphs; overlapping first classes force a second class-pair subtable.
+fn pairpos_builder_equal_classes() -> Vec<u8> {
+    let mut b = PairPosBuilder::default();
+    for i in 0..4u16 {
+        b.insert_pair(g(300 + i), ValueRecordBuilder::new().with_x_advance(i as i16 + 1), g(310 + i), ValueRecordBuilder::new());
+        b.insert_pair(g(320 + i), ValueRecordBuilder::new().with_x_placement(i as i16 + 1), g(330 + i), ValueRecordBuilder::new());
+        b.insert_pair(g(340 + i), ValueRecordBuilder::new().with_y_advance(i as i16 + 1), g(350 + i), ValueRecordBuilder::new().with_x_advance(2));
+    }
+    // decreasing first glyphs so that insertion order is the opposite of the sorted order
+    for i in (0..6u16).rev() {
+        for j in (0..5u16).rev() {
+            b.insert_classes(
+                gset(&[10 + 2 * i, 11 + 2 * i]),
+                ValueRecordBuilder::new().with_x_advance((i * 7 + j) as i16 - 9),
+                gset(&[100 + 2 * j, 101 + 2 * j]),
+                ValueRecordBuilder::new(),
+            );
+        }
+    }
+    // overlaps class [10, 11] without being equal to it => new subtable
+    for j in 0..3u16 {
+        b.insert_classes(gset(&[11, 40]), ValueRecordBuilder::new().with_x_advance(33), gset(&[200 + 2 * j, 201 + 2 * j]), ValueRecordBuilder::new());
+        b.insert_classes(gset(&[42, 43]), ValueRecordBuilder::new().with_x_advance(34), gset(&[200 + 2 * j, 201 + 2 * j]), ValueRecordBuilder::new());
+    }
+    let mut vs = VariationStoreBuilder::new(2);
+    let subtables = b.build(&mut vs);
+    gpos_of(vec![PositionLookup::Pair(Lookup::new(LookupFlag::empty(), subtables))])
+}
+
+/// ClassDefBuilder (classes live in a HashSet, mapping returned as a HashMap): eight classes of two
+/// glyphs each and four singletons, with and without class 0.
+fn classdef_builder_ties() -> Vec<u8> {
+    let mut out = vec![];
+    for use0 in [false, true] {
+        let mut b = if use0 { ClassDefBuilder::new_using_class_0() } else { ClassDefBuilder::new() };
+        for k in [5u16, 2, 7, 0, 3, 6, 1, 4] {
+            b.checked_add(gset(&[20 + 3 * k, 21 + 3 * k]));
+        }
+        for k in [3u16, 0, 2, 1] {
+            b.checked_add(gset(&[90 + 5 * k]));
+        }
+        let (cd, mapping) = b.build_with_mapping();
+        out.extend(dump_table(&cd).unwrap());
+        // the mapping is part of the result too: emit it in a canonical (sorted) form
+        let mut m: Vec<(Vec<u16>, u16)> = mapping.into_iter().map(|(k, v)| (k.iter().map(|x| x.to_u16()).collect(), v)).collect();
+        m.sort();
+        for (k, v) in m {
+            out.extend(k.iter().flat_map(|x| x.to_be_bytes()));
+            out.extend(v.to_be_bytes());
+        }
+    }
+    out
+}
+
+const MARK_CLASSES: [&str; 4] = ["top", "bottom", "ring", "cedilla"];
+
+/// Mark-to-base, mark-to-mark and mark-to-ligature builders (class names live in a
+/// HashMap<String, u16>) with four mark classes of two marks each.
+fn mark_builders_equal_classes() -> Vec<u8> {
+    let mut vs = VariationStoreBuilder::new(2);
+    let mut mb = MarkToBaseBuilder::default();
+    let mut mm = MarkToMarkBuilder::default();
+    let mut ml = MarkToLigBuilder::default();
+    for (ci, cls) in MARK_CLASSES.iter().enumerate().rev() {
+        for k in 0..2u16 {
+            let gid = g(500 + 2 * ci as u16 + k);
+            let a = AnchorBuilder::new(10 * ci as i16 + k as i16, -20 + ci as i16);
+            mb.insert_mark(gid, cls, a.clone()).unwrap();
+            mm.insert_mark1(gid, cls, a.clone()).unwrap();
+            ml.insert_mark(gid, cls, a).unwrap();
+        }
+    }
+    for base in 0..5u16 {
+        for (ci, cls) in MARK_CLASSES.iter().enumerate() {
+            if (base as usize + ci) % 3 == 2 {
+                continue;
+            }
+            mb.insert_base(g(40 + base), cls, AnchorBuilder::new(100 + base as i16, 300 + 11 * ci as i16));
+            mm.insert_mark2(g(520 + base), cls, AnchorBuilder::new(base as i16, 50 + ci as i16));
+        }
+    }
+    for lig in 0..3u16 {
+        for (ci, cls) in MARK_CLASSES.iter().enumerate() {
+            let comps = (0..2 + lig as usize)
+                .map(|c| if (c + ci) % 2 == 0 { Some(AnchorBuilder::new(c as i16 * 100 + ci as i16, 400)) } else { None })
+                .collect();
+            ml.insert_ligature(g(600 + lig), cls, comps);
+        }
+    }
+    let l1 = PositionLookup::MarkToBase(Lookup::new(LookupFlag::empty(), mb.build(&mut vs)));
+    let l2 = PositionLookup::MarkToMark(Lookup::new(LookupFlag::empty(), mm.build(&mut vs)));
+    let l3 = PositionLookup::MarkToLig(Lookup::new(LookupFlag::empty(), ml.build(&mut vs)));
+    gpos_of(vec![l1, l2, l3])
+}
+
+fn cursive_builder() -> Vec<u8> {
+    let mut b = CursivePosBuilder::default();
+    for i in (0..8u16).rev() {
+        let entry = (i % 3 != 0).then(|| AnchorBuilder::new(i as i16, 10));
+        let exit = (i % 4 != 1).then(|| AnchorBuilder::new(200 + (i % 2) as i16, 10));
+        b.insert(g(80 + i), entry, exit);
+    }
+    let mut vs = VariationStoreBuilder::new(2);
+    gpos_of(vec![PositionLookup::Cursive(Lookup::new(LookupFlag::empty(), b.build(&mut vs)))])
+}
+
+/// The four GSUB builders in one table; ligature sets of equal length and equal-length ligatures.
+fn gsub_builders() -> Vec<u8> {
+    use write_fonts::tables::gsub::builders::{AlternateSubBuilder, LigatureSubBuilder, MultipleSubBuilder, SingleSubBuilder};
+    use write_fonts::tables::gsub::{Gsub, SubstitutionLookup};
+    let mut vs = VariationStoreBuilder::new(2);
+    let mut s1 = SingleSubBuilder::default();
+    let mut s2 = SingleSubBuilder::default();
+    let mut mu = MultipleSubBuilder::default();
+    let mut al = AlternateSubBuilder::default();
+    let mut li = LigatureSubBuilder::default();
+    for i in (0..6u16).rev() {
+        s1.insert(g(10 + i), g(110 + i)); // constant delta => format 1
+        s2.insert(g(10 + i), g(300 - 7 * i)); // format 2
+        mu.insert(g(20 + i), vec![g(400 + i), g(401 + i)]);
+        al.insert(g(30 + i), vec![g(500 + i), g(510 + i), g(520 + i)]);
+        for k in (0..3u16).rev() {
+            li.insert(vec![g(40 + i), g(60 + k), g(61 + k)], g(700 + 3 * i + k));
+            li.insert(vec![g(40 + i), g(70 + k)], g(800 + 3 * i + k));
+        }
+    }
+    let lookups = vec![
+        SubstitutionLookup::Single(Lookup::new(LookupFlag::empty(), s1.build(&mut vs))),
+        SubstitutionLookup::Single(Lookup::new(LookupFlag::empty(), s2.build(&mut vs))),
+        SubstitutionLookup::Multiple(Lookup::new(LookupFlag::empty(), mu.build(&mut vs))),
+        SubstitutionLookup::Alternate(Lookup::new(LookupFlag::empty(), al.build(&mut vs))),
+        SubstitutionLookup::Ligature(Lookup::new(LookupFlag::empty(), li.build(&mut vs))),
+    ];
+    let gsub = Gsub::new(Default::default(), Default::default(), LookupList::new(lookups));
+    dump_table(&gsub).unwrap()
+}
+
+/// post version 2 from a glyph order with standard names, custom names and repeated custom names.
+fn post_v2_repeated_names() -> Vec<u8> {
+    let order = [
+        ".notdef", "A", "foo", "bar", "foo", "B", "baz.alt", "bar", "qux", "space", "foo", "a.sc", "qux", "zz",
+    ];
+    let post = write_fonts::tables::post::Post::new_v2(order);
+    dump_table(&post).unwrap()
+}
+
+/// cmap from mappings containing exact duplicates, supplementary-plane runs and gaps (format 12
+/// groups are found through a HashMap of char -> gid).
+fn cmap_format12_duplicates() -> Vec<u8> {
+    let mut m = vec![];
+    for i in (0..12u32).rev() {
+        let c = char::from_u32(0x1F600 + i + (i / 4) * 3).unwrap();
+        m.push((c, GlyphId::new(20 + i + (i / 6))));
+        m.push((c, GlyphId::new(20 + i + (i / 6))));
+    }
+    for i in 0..5u32 {
+        m.push((char::from_u32(0x61 + i).unwrap(), GlyphId::new(3 + i)));
+        m.push((char::from_u32(0x2F800 + 2 * i).unwrap(), GlyphId::new(60 + i)));
+    }
+    m.push(('a', GlyphId::new(3)));
+    let cmap = write_fonts::tables::cmap::Cmap::from_mappings(m).unwrap();
+    dump_table(&cmap).unwrap()
+}
+
+/// VariationStoreBuilder in both modes with equal-size regions and rows: many row shapes of equal
+/// cost (one region each, byte deltas; pairs of regions, word deltas), so that the encoder's merge
+/// heap is full of ties; plus all-zero rows and duplicate rows.
+fn ivs_builder_ties_both_modes() -> Vec<u8> {
+    let mut out = vec![];
+    for implicit in [false, true] {
+        let mut b = if implicit { VariationStoreBuilder::new_with_implicit_indices(2) } else { VariationStoreBuilder::new(2) };
+        for rep in 0..2i32 {
+            for k in (0..8usize).rev() {
+                b.add_deltas(vec![(region(k), 10 + rep + k as i32)]);
+                b.add_deltas(vec![(region(k), 300 + k as i32), (region((k + 1) % 8), -300 - rep)]);
+            }
+        }
+        b.add_deltas(vec![(region(3), 0), (region(4), 0)]);
+        b.add_deltas::<i32>(vec![]);
+        b.add_deltas(vec![(region(7), 17)]);
+        b.add_deltas(vec![(region(7), 17)]);
+        let (store, _) = b.build();
+        out.extend(dump_table(&store).unwrap());
+    }
+    out
+}
+
+/// One class-pair (format 2) subtable larger than 64 KiB in which every class has two glyphs =>
+/// split by class1 ranges (graph/splitting/pairpos.rs: class_map, ClassDefSizeEstimator).
+fn gpos_split_pairpos2() -> Vec<u8> {
+    let mut b = PairPosBuilder::default();
+    let n1 = 100u16;
+    let n2 = 100u16;
+    for i in 0..n1 {
+        for j in 0..n2 {
+            if (i + j) % 9 == 4 {
+                continue;
+            }
+            // 4 bytes in each value record => 8 bytes per class2 record, 100 x 100 x 8 = 80 KB
+            b.insert_classes(
+                gset(&[2 * i, 2 * i + 1]),
+                ValueRecordBuilder::new().with_x_advance((i as i16 % 50) - (j as i16 % 31)).with_x_placement(1),
+                gset(&[1000 + 2 * j, 1001 + 2 * j]),
+                ValueRecordBuilder::new().with_x_advance(j as i16 % 3).with_x_placement(2),
+            );
+        }
+    }
+    let mut vs = VariationStoreBuilder::new(2);
+    let subtables = b.build(&mut vs);
+    gpos_of(vec![PositionLookup::Pair(Lookup::new(LookupFlag::empty(), subtables))])
+}
+
+/// Mark-to-base subtable larger than 64 KiB with one mark per class (all classes the same size) =>
+/// split by mark class (graph/splitting/mark2base.rs).
+fn gpos_split_mark2base() -> Vec<u8> {
+    let mut mb = MarkToBaseBuilder::default();
+    let n_classes = 90u16;
+    let n_bases = 420u16;
+    let names: Vec<String> = (0..n_classes).map(|c| format!("c{c:03}")).collect();
+    for c in (0..n_classes).rev() {
+        mb.insert_mark(g(5000 + c), &names[c as usize], AnchorBuilder::new(c as i16 % 7, 0)).unwrap();
+    }
+    for base in 0..n_bases {
+        for c in 0..n_classes {
+            if (base + c) % 17 == 0 {
+                continue;
+            }
+            mb.insert_base(g(base), &names[c as usize], AnchorBuilder::new((c % 5) as i16 * 10, 500 + (base % 3) as i16));
+        }
+    }
+    let mut vs = VariationStoreBuilder::new(2);
+    gpos_of(vec![PositionLookup::MarkToBase(Lookup::new(LookupFlag::empty(), mb.build(&mut vs)))])
+}
+
+/// One lookup with two subtables that both need splitting (graph/splitting.rs `new_subtables`).
+fn gpos_two_splits_one_lookup() -> Vec<u8> {
+    let lookup = PositionLookup::Pair(Lookup::new(
+        LookupFlag::empty(),
+        vec![big_pair_pos(0, 21, 800), big_pair_pos(2000, 21, 800)],
+    ));
+    let gpos = Gpos::new(Default::default(), Default::default(), LookupList::new(vec![lookup]));
+    dump_table(&gpos).unwrap()
 }
 
 fn corpus(path: &str) -> Vec<u8> {
